@@ -146,15 +146,51 @@ def surface(draw, variants=("acorn", "watford", "opus"), geoms=None, chars=None,
                 minlen = max(1, need)
                 ln = draw(size_small(minlen, max(minlen, maxlen)))
             t += ln
+        # volume letters: usually the prefix A.., sometimes with gaps (e.g. A and C present, B absent)
+        letters = list("ABCDEFGH"[:nvol])
+        if nvol < 8 and draw(st.integers(0, 3)) == 0:
+            if nvol == 1 or draw(st.integers(0, 5)) == 0:
+                # (rarely) volume A itself is absent
+                letters = sorted(draw(st.lists(st.sampled_from("ABCDEFGH"), min_size=nvol, max_size=nvol, unique=True)))
+            else:
+                letters = ["A"] + sorted(draw(st.lists(st.sampled_from("BCDEFGH"), min_size=nvol - 1,
+                                                        max_size=nvol - 1, unique=True)))
+        s["opus_letters_with_gap"] = letters != list("ABCDEFGH"[:nvol])
         for i, stt in enumerate(starts):
             end = starts[i + 1] if i + 1 < len(starts) else tracks
             vlen = (end - stt) * spt
             ents = draw(entries_for(0, vlen, 31, chars, dirs, zero_ok, big_ok))
-            s["volumes"].append({"label": "ABCDEFGH"[i], "start_track": stt,
+            s["volumes"].append({"label": letters[i], "start_track": stt,
                                  "title": draw(title_st()), "cycle": draw(st.integers(0, 255)),
                                  "boot": draw(st.integers(0, 3)), "total": min(vlen, 1023), "cats": [ents]})
         return s
     total = nsec if nsec <= 1023 else draw(st.sampled_from([1023, 1000, 721, 800]))
+    if variant == "watford" and total > 0x120 and draw(st.integers(0, 3)) == 0:
+        # a first-catalogue file whose start sector has low byte 2 (0x102 / 0x202 / 0x302): the Watford
+        # recognition must look at all ten bits of the start sector
+        st_sec = draw(st.sampled_from([x for x in (0x102, 0x202, 0x302) if x + 4 < total]))
+        low = draw(entries_for(4, st_sec, 30, chars, dirs, zero_ok, False))
+        high = draw(entries_for(st_sec + 3, total, 31, chars, dirs, zero_ok, False))
+        used = {(chr(e["dir"]).lower(), bytes(e["name"]).lower()) for e in low + high}
+        nm = b"AT102"
+        k = 0
+        while ("$", nm.lower()) in used:
+            k += 1
+            nm = b"AT%d" % k
+        # names in the two halves must also be distinct from each other
+        seen = set()
+        for e in low + high:
+            key = (chr(e["dir"]).lower(), bytes(e["name"]).lower())
+            while key in seen:
+                e["name"] = (bytes(e["name"])[:5] + b"%d" % (len(seen) % 90))[:7]
+                key = (chr(e["dir"]).lower(), bytes(e["name"]).lower())
+            seen.add(key)
+        special = {"name": nm, "dir": ord("$"), "locked": draw(st.booleans()), "load": draw(addr18),
+                   "exec": draw(addr18), "length": 600, "start": st_sec, "body": draw(body_spec)}
+        cats = [[special] + low, high]
+        s["volumes"].append({"label": None, "title": draw(title_st()), "cycle": draw(st.integers(0, 255)),
+                             "boot": draw(st.integers(0, 3)), "total": total, "cats": cats})
+        return s
     if variant == "watford":
         ents = draw(entries_for(4, total, 62, chars, dirs, zero_ok, big_ok))
         # ents is descending by start; the second catalogue (sectors 2-3) holds the
